@@ -655,10 +655,10 @@ func (e *Enc) evalCall(env *Env, n *ast.CallExpr) TV {
 		}
 		e.nfresh++
 		q := fmt.Sprintf("j!%d", e.nfresh)
-		now := sel(e.byteMem(env.st), a.Arr)
-		then := sel(e.byteMem(env.old), a.Arr)
-		return TV{V: Sc{T{fmt.Sprintf("(forall ((%s (_ BitVec 64))) (=> (not (bvult (bvsub %s (bvadd %s %s)) (bvsub %s %s))) (= (select %s %s) (select %s %s))))",
-			q, q, a.Off.S, lo.S, hi.S, lo.S, now.S, q, then.S, q), SBool}}, Ty: boolT}
+		now := e.constFor("uoNow", sel(e.byteMem(env.st), a.Arr))
+		then := e.constFor("uoThen", sel(e.byteMem(env.old), a.Arr))
+		return TV{V: Sc{T{fmt.Sprintf("(forall ((%s (_ BitVec 64))) (! (=> (not (bvult (bvsub %s %s) %s)) (= (select %s %s) (select %s %s))) :pattern ((select %s %s))))",
+			q, q, add(a.Off, lo).S, sub(hi, lo).S, now.S, q, then.S, q, now.S, q), SBool}}, Ty: boolT}
 	case "isnil":
 		a := e.eval(env, n.Args[0])
 		return TV{V: Sc{e.isNil(env, a.V)}, Ty: boolT}
@@ -738,8 +738,14 @@ func (e *Enc) evalConv(env *Env, to types.Type, args []ast.Expr) TV {
 // readInt reads an nb-byte integer at s[off:].
 func (e *Enc) readInt(st *State, s Sl, off T, nb int, bigEndian bool) T {
 	var t T
+	bs := make([]T, nb) // most significant first
 	for i := 0; i < nb; i++ {
 		b := e.byteAt(st, s, add(off, bv64(uint64(i))))
+		if bigEndian {
+			bs[i] = b
+		} else {
+			bs[nb-1-i] = b
+		}
 		if i == 0 {
 			t = b
 		} else if bigEndian {
@@ -748,5 +754,43 @@ func (e *Enc) readInt(st *State, s Sl, off T, nb int, bigEndian bool) T {
 			t = concat(b, t)
 		}
 	}
+	if e.concatBytes == nil {
+		e.concatBytes = map[string][]T{}
+	}
+	e.concatBytes[t.S] = bs
 	return t
+}
+
+// eqScalar is equality on scalars that compares multi-byte memory reads byte
+// by byte (keeps the solver from case-splitting on an 8-byte concat at once).
+func (e *Enc) eqScalar(a, b T) T {
+	if a.Sort != b.Sort {
+		return eq(a, b)
+	}
+	ba, oka := e.concatBytes[a.S]
+	bb, okb := e.concatBytes[b.S]
+	if !oka && !okb {
+		return eq(a, b)
+	}
+	n := len(ba)
+	if !oka {
+		n = len(bb)
+	}
+	var cs []T
+	for i := 0; i < n; i++ {
+		hi, lo := 8*(n-i)-1, 8*(n-i-1)
+		var x, y T
+		if oka {
+			x = ba[i]
+		} else {
+			x = extract(a, hi, lo)
+		}
+		if okb {
+			y = bb[i]
+		} else {
+			y = extract(b, hi, lo)
+		}
+		cs = append(cs, eq(x, y))
+	}
+	return and(cs...)
 }
